@@ -38,7 +38,7 @@ func VerifC03RoundTripV2() {
 	nm := verifBytes("name", 2)
 	gr := verifBytes("group", 2)
 	for i := 0; i < 2; i++ {
-		verifAssume(nm[i] >= 'a' && nm[i] <= 'z' && gr[i] >= 'a' && gr[i] <= 'z')
+		verifAssume(nm[i] >= 'a' && nm[i] <= 'z') // the group name is two ARBITRARY bytes (signing accepts any)
 	}
 	// the two ASN.1 integers are chosen from boundary values of each encoded length (1..5 bytes)
 	tv := [...]int64{0, 127, 128, 32767, 32768, 1700000000, 2147483647, 2147483648, 4102444800}
